@@ -537,6 +537,48 @@ def _splice_dict_temps(tree: ast.AST) -> None:
                     body.append(ast.Pass())
 
 
+def _splice_tuple_temps(tree: ast.AST) -> int:
+    """`t = (a, b)` (assigned once, used once, as `f(*t, ...)`) reads `f(a, b, ...)`: positional arguments packed in a tuple first."""
+    n = 0
+    for fn in ast.walk(tree):
+        if not isinstance(fn, (ast.FunctionDef, ast.AsyncFunctionDef)):
+            continue
+        uses: Dict[str, int] = {}
+        for x in ast.walk(fn):
+            if isinstance(x, ast.Name):
+                uses[x.id] = uses.get(x.id, 0) + 1
+        defs = {}
+        for holder in ast.walk(fn):
+            for fld in ("body", "orelse", "finalbody"):
+                v = getattr(holder, fld, None)
+                if isinstance(v, list):
+                    for st in v:
+                        if isinstance(st, ast.Assign) and len(st.targets) == 1 and isinstance(st.targets[0], ast.Name) and isinstance(st.value, ast.Tuple) \
+                                and not any(isinstance(e, ast.Starred) for e in st.value.elts) and uses.get(st.targets[0].id) == 2:
+                            defs[st.targets[0].id] = (v, st)
+        if not defs:
+            continue
+        done = set()
+        for c in ast.walk(fn):
+            if isinstance(c, ast.Call):
+                new_args = []
+                for a in c.args:
+                    if isinstance(a, ast.Starred) and isinstance(a.value, ast.Name) and a.value.id in defs and a.value.id not in done:
+                        new_args += list(defs[a.value.id][1].value.elts)
+                        done.add(a.value.id)
+                    else:
+                        new_args.append(a)
+                c.args = new_args
+        for nm in done:
+            body, st = defs[nm]
+            if st in body:
+                body.remove(st)
+                if not body:
+                    body.append(ast.Pass())
+        n += len(done)
+    return n
+
+
 def canon_compare(tree: ast.AST, modname: str = "") -> ast.AST:
     tree = _CanonCompare().visit(tree)
     _inline_return_temps(tree)
@@ -550,7 +592,13 @@ def canon_compare(tree: ast.AST, modname: str = "") -> ast.AST:
             _unroll_const_loops(tree)          # a loop over constant names whose body became visible by the expansion
             _inline_return_temps(tree)
         _splice_dict_temps(tree)
+        spliced = _splice_tuple_temps(tree)
         _SpliceCalls().visit(tree)
+        if spliced:
+            # a helper whose call was `h(*packed, x)` can be read at its call site now
+            if expand_module(tree, modname):
+                ast.fix_missing_locations(tree)
+                _inline_return_temps(tree)
     return ast.fix_missing_locations(tree)
 
 
